@@ -11,7 +11,7 @@ auth flag clear.  Buffer.tla (TLC, see C17) establishes that the bookmark used t
 the placeholder iff it was set while building the current message."""
 import json, random, itertools
 from vlib import trace, scripts, rawdrv, agent as ag, tlc, sesscheck
-from vlib.report import Check, confirm_by_replay
+from vlib.report import Check, confirm_by_replay, timing_event
 from vlib.env import SEED, ToolError
 from checks import c11
 
@@ -102,6 +102,15 @@ def run(tier):
         a = rec.n
         one_session(rec, cfg, [(sizes[j % len(sizes)], 5, 6) for j in range(4)], None)
         runs.append((a, rec.n, dict(alg="none", priv="none", kt="-", elen=6, ulen=10, idx=idx, plan=[])))
+    # one password, sessions created back to back under alternating digests / ciphers (both orders): nothing derived from the password
+    # under one digest may serve another
+    for pi, pw in enumerate([b"one-password-for-all", b"maplesyrup"]):
+        for si, (alg, priv) in enumerate([("sha1", "none"), ("md5", "none"), ("md5", "aes"), ("sha1", "des"), ("md5", "none"), ("sha1", "aes")]):
+            engine = bytes([0x80, 0, 0x1f, 0x88, 0x80, pi, si, 7, 7])
+            cfg = rawdrv.Cfg("v3", user="shared%d" % si, engine=engine, auth=alg, akt="password", akm=pw, priv=priv, pkt="password", pkm=pw if priv != "none" else b"")
+            a = rec.n
+            one_session(rec, cfg, [(1, 1, 5), (2, 1, 6)], None)
+            runs.append((a, rec.n, dict(alg=alg, priv=priv, kt="password", elen=9, ulen=7, idx=1000 + pi * 10 + si, plan=[(1, 1, 5), (2, 1, 6)], shared_pw=pw.decode())))
     # public-API histories: discovery datagrams lost, enter / refresh retried - afterwards the session must still sign as the configured user
     from checks import c13
     for a, b, info in c13.lost_discovery_histories(rec, [("md5", "none", "password"), ("sha1", "des", "master"), ("sha1", "aes", "password")], thorough, base_idx=500):
@@ -128,7 +137,7 @@ def run(tier):
             sig["kind"] = "api-history"
             chk.violation(sig, "%s session configured with auth=%s priv=%s, calls %s with datagrams %s lost: %s (%s) - a request left that is not signed as the configured user" %
                           (info["kind"], info["auth"], info["priv"], info["calls"], [k for k, p in enumerate(info["plan"]) if p == "drop"], ev["ev"], ev.get("op")),
-                          dict(info=info), confirm=confirm_by_replay(c13.replay, dict(info=info)))
+                          dict(info=info), confirm=(confirm_by_replay(c13.replay, dict(info=info)) if timing_event(ev) else None))
             continue
         chk.violation(sig, "auth=%s priv=%s keytype=%s engine_len=%d user_len=%d: %s %s len=%d" % (info["alg"], info["priv"], info["kt"], info["elen"], info["ulen"], ev["ev"], ev.get("exc") or "", len(ev.get("wire", []))),
                       dict(info=info, event_index=idx - a))
